@@ -120,8 +120,16 @@ def runesOn (cfg : Cfg) (b : Block) : Bool := cfg.indexRunes && decide (b.height
 def replayBalBlock (cfg : Cfg) (acc : BalTable × List Event) (b : Block) : BalTable × List Event :=
   if runesOn cfg b then b.txs.foldl replayBalTx acc else acc
 
+/-- events the per-transaction balance pass walks: rune events except `RuneBurned`.  Burns do not
+touch the balance table, and the event stream is only canonical up to the order of consecutive
+`RuneBurned` events (they come out of a HashMap; the harness sorts each maximal run of them, which
+can interleave the burns of two adjacent transactions), so they must not delimit a transaction's run. -/
+def isBalEvent : Event → Bool
+  | .runeBurned .. => false
+  | e => isRuneEvent e
+
 def replayBalances (cfg : Cfg) (evs : List Event) (chain : List Block) : BalTable × List Event :=
-  chain.foldl (replayBalBlock cfg) ([], evs.filter isRuneEvent)
+  chain.foldl (replayBalBlock cfg) ([], evs.filter isBalEvent)
 
 /-! ### replay and projection -/
 
